@@ -189,7 +189,43 @@ Theorem cache_hit_without_hash_check_refuted :
 Proof. exact unpatched_interleaved_refuted. Qed.
 Print Assumptions cache_hit_without_hash_check_refuted.
 
+(* Revocation as executed by coordinator.StatementExecutor (REVOKE r ON db FROM name resolved to
+   UserPrivilege + SetPrivilege on the metadata): for every metadata value, user, database,
+   held privilege (any number) and revoked privilege, a successful REVOKE leaves the user
+   with held &^ r on db (nothing for ALL), touches no other entry, name, hash or admin flag,
+   and afterwards no need overlapping r is covered by the grant on db. *)
+Theorem revoke_removes_exactly :
+  forall m name db r m',
+    exec_stmt m (XRevoke name db r) = (true, m') ->
+    exists u u', find_user (m_users m) name = Some u /\ find_user (m_users m') name = Some u' /\
+      u_name u' = u_name u /\ u_hash u' = u_hash u /\ u_admin u' = u_admin u /\
+      lookup_priv (u_privs u') db =
+        Some (if r =? AllPrivileges then NoPrivileges
+              else N.ldiff (match lookup_priv (u_privs u) db with Some p => p | None => NoPrivileges end) r) /\
+      (forall d', str_eqb db d' = false -> lookup_priv (u_privs u') d' = lookup_priv (u_privs u) d') /\
+      (forall need, N.land need AllPrivileges = need -> need <> 0 -> N.land need r <> 0 ->
+                    grant_covers (lookup_priv (u_privs u') db) need = false).
+Proof. exact revoke_removes_exactly_lemma. Qed.
+Print Assumptions revoke_removes_exactly.
+
+(* Every successful GRANT / REVOKE / GRANT ALL PRIVILEGES TO / REVOKE ALL PRIVILEGES FROM /
+   SET PASSWORD / DROP USER, on metadata whose user names are unique, has the effect
+   Spec.stmt_effect_ok demands of the resulting user table. *)
+Theorem user_statements_take_effect :
+  forall m x m', names_unique (m_users m) -> exec_stmt m x = (true, m') -> stmt_effect_ok x (m_users m') = true.
+Proof. exact stmt_effect_sound. Qed.
+Print Assumptions user_statements_take_effect.
+
 (* ---------- link: the model satisfies the executable spec of Run.v for ALL inputs ---------- *)
+
+(* sessions on one node: tables installed, requests and user-management statements in any order
+   (cache carried over): every request is judged against the table installed at that moment *)
+Theorem model_satisfies_spec_sessions :
+  forall bc secret ts, Forall step_unique ts ->
+    seq_spec_g false bc secret [] (combine ts (seq_run (bc_ok bc) salted_id true secret salt0 seq0 ts)) = true.
+Proof. exact link_seq0. Qed.
+Print Assumptions model_satisfies_spec_sessions.
+
 
 Theorem model_satisfies_spec_authz :
   forall users u ss db, authz_obs_ok users u ss db (qres_code (authorize_query users u ss db) =? 0) = true.
@@ -274,9 +310,9 @@ Example history_nonvacuous :
     [HOp (OCreateUser [97] 1 true); HPublish; HAuth [] [97] [111]; HAuth [] [97] [111];
      HOp (OUpdateUser [97] 2); HAuth [] [97] [111]; HPublish; HAuth [] [97] [111]; HAuth [] [97] [110]]
   = [XOp (OCreateUser [97] 1 true) true; XPub [mkUser [97] 1 true []] [] [];
-     XAuth [97] [111] 0 [([97], 1)]; XAuth [97] [111] 0 [([97], 1)];
-     XOp (OUpdateUser [97] 2) true; XAuth [97] [111] 0 [([97], 1)];
-     XPub [mkUser [97] 2 true []] [] []; XAuth [97] [111] 2 []; XAuth [97] [110] 0 [([97], 2)]].
+     XAuth [97] [111] 0 (Some (mkUser [97] 1 true [])) [([97], 1)]; XAuth [97] [111] 0 (Some (mkUser [97] 1 true [])) [([97], 1)];
+     XOp (OUpdateUser [97] 2) true; XAuth [97] [111] 0 (Some (mkUser [97] 1 true [])) [([97], 1)];
+     XPub [mkUser [97] 2 true []] [] []; XAuth [97] [111] 2 None []; XAuth [97] [110] 0 (Some (mkUser [97] 2 true [])) [([97], 2)]].
 Proof. vm_compute. reflexivity. Qed.
 
 (* the repaired code on the refutation witness: the old password is refused for every position of the swap *)
@@ -284,4 +320,11 @@ Example race_fixed_nonvacuous :
   map (race_outcome true [(1, [111]); (2, [110])] [mkUser [97] 1 true []] [mkUser [97] 2 true []] [97] [111] [110])
       [0; 1; 2; 3]%nat
   = [(2, 2, 0); (0, 2, 0); (0, 2, 0); (0, 2, 0)].
+Proof. vm_compute. reflexivity. Qed.
+
+(* READ revoked from a holder of ALL leaves WRITE; ALL revoked from a holder of READ leaves nothing *)
+Example revoke_nonvacuous :
+  let m := mkM [mkUser [98] 0 false [([100], 3); ([101], 1)]] [[100]; [101]] in
+  (m_users (snd (exec_stmt m (XRevoke [98] [100] 1))), m_users (snd (exec_stmt m (XRevoke [98] [101] 3))))
+  = ([mkUser [98] 0 false [([100], 2); ([101], 1)]], [mkUser [98] 0 false [([100], 3); ([101], 0)]]).
 Proof. vm_compute. reflexivity. Qed.
